@@ -14,7 +14,7 @@ def run(chk, st, tier):
     if not runner:
         return
     small = [s for s in shapes if s.name != "flat24"] or shapes
-    files = R.make_files(chk, runner, small, rng, 24 if tier == "quick" else 200, maxrecs=6, name="C10-files")
+    files = R.make_files(chk, runner, small, rng, 14 if tier == "quick" else 200, maxrecs=5, name="C10-files")
     # fault-free pass: number of source operations of each read
     base_cases = [("p%d" % i, w.shape, f, "plain") for i, (w, f) in enumerate(files)]
     impl0, model0, _, _ = R.run_reads(runner, small, base_cases, "C10-base")
@@ -35,7 +35,7 @@ def run(chk, st, tier):
     impl, _, e1, _ = C.run_cases(lines, "C10-impl", impl_cmd=[runner])
     mlines = Fm.shape_lines(small)
     for i, (w, f) in enumerate(files):
-        for j in range(0, 400):
+        for j in range(0, 120):
             mlines.append("m%d_%d read %s %s fail:%d" % (i, j, w.shape.name, C.hexs(f), j))
     _, model, _, e2 = C.run_cases(mlines, "C10-model", impl_cmd=["true"])
     bad = 0
@@ -68,7 +68,7 @@ def run(chk, st, tier):
     setdiff = 0
     for i, (w, f) in enumerate(files):
         om = set()
-        for j in range(400):
+        for j in range(120):
             r = Fm.parse_read(model.get("m%d_%d" % (i, j)))
             if r:
                 om.add((r["status"], r.get("nexts")))
